@@ -364,3 +364,4 @@ def check(ctx, rep):
     shared.unused_params(ctx, rep, "C08.PARAM", ["spec_classes.types.attr"])
     from .c05 import resetall_rule
     resetall_rule(ctx, rep, "C08.RESETALL")
+    metarules.rebuild_options(ctx, rep, "C08.META")
